@@ -58,12 +58,22 @@ def _lib():
 
 
 class _PassThroughRandom:
-    """Stand-in for the `random` name inside ad_afqmc.propagation: the 'key' is the table of uniforms itself."""
+    """Stand-in for the `random` name inside ad_afqmc.propagation: the 'key' is the table of uniforms itself.
+
+    The table (W, n + 4*n_bonds) is a stream of two segments, one per draw of the neighbour propagators: segment 0 is
+    what `uniform(shape=(W, n))` must return, segment 1 is, per walker, the row-major (4, n_bonds) array that
+    `uniform(shape=(W, 4, n_bonds))` must return (bond x, channel c -> column n + c*n_bonds + x).  Numbers are handed
+    out by (draw index, requested shape): the d-th draw gets segment d read cyclically in the row-major order of the
+    shape it asked for.  A request with the reference shape gets the reference numbers; any other shape gets a
+    different assignment of numbers to (channel, bond) - as with a real generator - and therefore shows up as a
+    mismatch against the reference and the slow propagator instead of being absorbed."""
 
     def __init__(self):
         self.n_split = 0
         self.n_uniform = 0
+        self.draw = 0       # reset by the harness before every propagate call (only read while tracing)
         self.layout = None  # (n_sites, n_bonds), set by the job before the call
+        self.shapes = []
 
     def split(self, key, num=2):
         self.n_split += 1
@@ -73,15 +83,27 @@ class _PassThroughRandom:
         self.n_uniform += 1
         n, nb = self.layout
         W = key.shape[0]
-        if tuple(shape) == (W, n):
-            return key[:, :n]
-        if tuple(shape) == (W, 4, nb):
-            # decision index of (bond x, spin combination c) is n + 4*x + c
-            return key[:, n:].reshape(W, nb, 4).transpose(0, 2, 1)
-        raise AssertionError("virtual RNG: unexpected uniform shape %r" % (shape,))
+        shape = tuple(int(k) for k in shape)
+        self.shapes.append(shape)
+        if len(shape) < 2 or shape[0] != W:
+            raise AssertionError("virtual RNG: unexpected uniform shape %r" % (shape,))
+        d = min(self.draw, 1)
+        self.draw += 1
+        seg = key[:, :n] if d == 0 else key[:, n:]
+        size = int(np.prod(shape[1:]))
+        return seg[:, np.arange(size) % seg.shape[1]].reshape(shape)
 
     def __getattr__(self, name):
         raise AssertionError("virtual RNG: propagation.random.%s is not part of the alphabet" % name)
+
+
+def nn_table(u, n, nb):
+    """decision order (sites, then per bond x the channels uu, ud, du, dd: column n + 4x + c of `u`) -> stream layout"""
+    tab = np.array(u, copy=True)
+    for x in range(nb):
+        for c in range(4):
+            tab[:, n + c * nb + x] = u[:, n + 4 * x + c]
+    return tab
 
 
 _FAKE = _PassThroughRandom()
@@ -112,6 +134,12 @@ def lattice(name):
         lat = lattices.one_dimensional_chain(int(name[5:]))
     elif name == "grid2x2":
         lat = lattices.two_dimensional_grid(2, 2)
+    elif name == "ring4diag":
+        # 4-site ring plus one diagonal: 5 bonds on 4 sites (more bonds than sites, as on every 2-D lattice beyond 2x2)
+        K, bonds = lattice("chain4")
+        K = K.copy()
+        K[0, 2] = K[2, 0] = -1.0
+        return K, tuple(sorted(set(bonds) | {(0, 2)}))
     else:
         raise ValueError(name)
     A = np.asarray(lat.create_adjacency_matrix(), dtype=float)
@@ -366,6 +394,23 @@ def tree_spec(T, probes=True):
     return np.concatenate(bits), np.concatenate(depth), np.concatenate(sign)
 
 
+PREFIX_LETTERS = ("zeros", "ones", "alternating")
+
+
+@lru_cache(maxsize=None)
+def subtree_spec(T, suffix):
+    """Bounded sub-tree for trees too large to enumerate (T = n + 4*bonds = 24 on the 5-bond lattice): the first T - suffix
+    decisions run over a 3-letter alphabet of forced prefixes (all 0, all 1, alternating), the last `suffix` decisions over
+    ALL 2^suffix patterns.  Leaves only (no probes, and no summed identity, which needs the complete tree)."""
+    P = T - suffix
+    pre = [np.zeros(P, dtype=np.int8), np.ones(P, dtype=np.int8), (np.arange(P) % 2).astype(np.int8)]
+    idx = np.arange(2 ** suffix)
+    suf = ((idx[:, None] >> (suffix - 1 - np.arange(suffix))[None, :]) & 1).astype(np.int8)
+    bits = np.concatenate([np.concatenate([np.broadcast_to(p, (suf.shape[0], P)), suf], axis=1) for p in pre])
+    W = bits.shape[0]
+    return bits, np.full(W, -1), np.zeros(W, dtype=int)
+
+
 def _scale_rows(Wa, Wb, so, c):
     """multiply row so=(spin,i) of every walker by c (scalar or per-walker array); returns new arrays"""
     s, i = so
@@ -580,9 +625,13 @@ def run_population(case):
     bonds = bonds if is_nn else ()
     ops = ops_nn(n, bonds) if is_nn else ops_onsite(n)
     T = len(ops)
-    bits, depth, sign = tree_spec(T, bool(case.get("probes", True)))
+    if case.get("subtree"):
+        bits, depth, sign = subtree_spec(T, int(case["subtree"]))
+    else:
+        bits, depth, sign = tree_spec(T, bool(case.get("probes", True)))
     W = bits.shape[0]
-    L = 2 ** T
+    L = int((depth < 0).sum())           # leaves come first
+    complete = L == 2 ** T
     shift = float(case["shift"])
     viol = []
 
@@ -641,8 +690,9 @@ def run_population(case):
     if is_nn:
         fake = _install_fake_random()
         fake.layout = (n, len(bonds))
+        fake.draw = 0
         before = fake.n_uniform
-        pd["key"] = jnp.asarray(R["u"])
+        pd["key"] = jnp.asarray(nn_table(R["u"], n, len(bonds)))
         rns = jnp.zeros((W, n))
     else:
         rns = jnp.asarray(uniforms_to_gaussians(R["u"]))
@@ -686,7 +736,7 @@ def run_population(case):
         viol.append(("%s:stored-overlap-not-overlap-of-returned-walker" % base, dict(walker=int(bad[0]), relerr=float(e_coh[bad[0]]))))
 
     # --- the exact expectation over all field configurations
-    free = not (R["active"][:L].any() or R["dead"][:L].any() or R["ambiguous"][:L].any() or R["clipped"][:L].any())
+    free = complete and not (R["active"][:L].any() or R["dead"][:L].any() or R["ambiguous"][:L].any() or R["clipped"][:L].any())
     info = dict(W=W, L=L, n_probe=int(W - L), n_probe_ok=int((R["probe_ok"] & (depth >= 0)).sum()),
                 n_dead=int(R["dead"].sum()), n_active=int(R["active"].sum()), n_ambiguous=int(R["ambiguous"].sum()),
                 identity_evaluated=bool(free), ref_mismatch=False, E_minus_bare=float(np.abs(E_lib - E_bare).max()),
@@ -769,6 +819,14 @@ def tree_cases(cfg):
 def nn_cases(cfg):
     n = cfg["n"]
     out = []
+    if cfg.get("subtree"):
+        # lattice with more bonds than sites: bounded sub-tree (see subtree_spec), per-walker oracles and fast vs slow only
+        for lat in cfg["lats"]:
+            for i1, u1 in enumerate(cfg.get("u1s", (1.0,))):
+                for pname in ("propagator_cpmc_nn", "propagator_cpmc_nn_slow"):
+                    out.append(dict(cfg, fam="nn", lat=lat, U=cfg["Us"][0], u1=u1, dt=cfg["dts"][0], density="nonuniform",
+                                    walker="near", prop=pname, mode="library", field="none", shift=_shift_letter(i1)))
+        return out
     for lat in LATS[n]:
         for iu, U in enumerate(cfg["Us"]):
             for i1, u1 in enumerate((0.0, 1.0)):
@@ -809,6 +867,10 @@ def job_paths(cfg):
 def _job_paths(cfg):
     res = Result()
     cases = tree_cases(cfg) if cfg["fam"] == "tree" else nn_cases(cfg)
+    if cfg.get("subtree"):
+        res.note("neighbour family on the 5-bond/4-site lattice (ring + diagonal): the full tree has 2^24 leaves; enumerated is the "
+                 "bounded sub-tree {3 forced prefixes} x all 2^%d patterns of the last %d decisions (the last two bonds, the ones an "
+                 "out-of-range bond index would be clamped onto), leaves only" % (cfg["subtree"], cfg["subtree"]))
     if not cfg.get("probes", True):
         res.note("quick tier, 3-site neighbour-interaction family: all 2^(n+4*bonds) forced paths but no probability probes "
                  "(probes for this family run on 2 sites, and on 3 sites in the thorough tier)")
@@ -831,6 +893,9 @@ def _job_paths(cfg):
             if case.get("field", "none") != "none":
                 res.guard("identity_evaluated[%s,spin-dependent one-body %s]" % (case["mode"], case["field"]), 1)
             res.nontrivial_values(("p",) + _case_key(case), info["leaf_p"], 10)
+        elif case.get("subtree"):
+            res.guard("bounded_subtree_populations(bonds > sites; no summed identity)", 1)
+            res.guard("bounded_subtree_leaves", L)
         else:
             res.guard("identity_not_evaluated(constraint active or weight clipped on some path)", 1)
         for sig, det in out["viol"]:
@@ -1135,6 +1200,12 @@ def make_jobs(tier, seed):
                                            dts=[0.1, 0.01] if thorough else [0.1],
                                            walkers=["near"] if (n == 3 and not thorough) else ["near", "far"],
                                            probes=(thorough or n == 2))))
+    # more bonds than sites (neighbour list longer than the site count): bounded sub-tree on ring + diagonal
+    for kind in ("uhf_cpmc", "ghf_cpmc"):
+        for (na, nb) in ([(2, 1), (2, 2)] if thorough else [(2, 1)]):
+            jobs.append(("paths", dict(fam="nn", n=4, na=na, nb=nb, trial=kind, seed=seed, thorough=thorough, lats=["ring4diag"],
+                                       subtree=(10 if thorough else 8), Us=[4.0], dts=[0.1], u1s=((1.0, 0.0) if thorough else (1.0,)),
+                                       walkers=["near"], probes=True)))
     return jobs
 
 
@@ -1167,7 +1238,9 @@ def run(ctx):
                 "filling x U x dt x trial kind x density profile x walker x propagator x half-step source x one-body letter (spin-"
                 "independent hopping, + staggered Zeeman field, + edge pinning field: h1[0] != h1[1]); a state is one forced "
                 "walker = one complete field configuration (leaf) or one boundary probe of one internal node of the decision tree, "
-                "all executed in one population through prop.propagate; non-trivial & distinct = distinct non-zero leaf "
+                "all executed in one population through prop.propagate (neighbour family: complete trees on chain2 = 1 bond / 2 sites and the "
+                "3-ring = 3 bonds / 3 sites; on ring+diagonal = 5 bonds / 4 sites a bounded sub-tree: 3 forced prefixes x all 2^8 (2^10 "
+                "thorough) patterns of the last decisions, leaves only, no summed identity); non-trivial & distinct = distinct non-zero leaf "
                 "probabilities of the configurations on which the summed identity was evaluated")
     ctx.assume("trial orbitals and walkers real (propagator_cpmc.init_prop_data takes the real part); hopping t=1; the Fock-space "
                "reference mc/fock.py (self-tested) and NumPy determinants are the trusted base")
@@ -1210,7 +1283,7 @@ def run(ctx):
                       "identity_evaluated[library,uniform density]", "identity_evaluated[library,nonuniform density]",
                       "identity_evaluated[library,spin-dependent one-body staggered]",
                       "identity_evaluated[library,spin-dependent one-body edge]",
-                      "pair_constant_cases[same-spin]", "pair_constant_cases[opposite-spin]", "fast_vs_slow_walkers_compared",
+                      "pair_constant_cases[same-spin]", "pair_constant_cases[opposite-spin]", "fast_vs_slow_walkers_compared", "bounded_subtree_leaves",
                       "example_route_cells", "walkers_with_constraint_active")
 
 
